@@ -101,8 +101,9 @@ Qed.
 Lemma reuse_secs_shift : forall delta t r, delta <= r_start r ->
   reuse_secs t (shift_row delta r) = reuse_secs (t + delta) r.
 Proof.
-  intros. unfold reuse_secs, sat_sub, shift_row. cbn [r_start].
-  replace (t - (r_start r - delta)) with (t + delta - r_start r) by lia. reflexivity.
+  intros. unfold reuse_secs, sat_sub, shift_row. cbn [r_start r_expiry].
+  replace (t - (r_start r - delta)) with (t + delta - r_start r) by lia.
+  replace (r_expiry r - delta - t) with (r_expiry r - (t + delta)) by lia. reflexivity.
 Qed.
 
 Lemma revive_secs_shift : forall delta r, delta <= r_start r ->
